@@ -462,6 +462,8 @@ class Mon(object):
             for ev in tr.events:
                 if ev["member"] != name:
                     continue
+                if ev["t"] >= tr.end_t - 1e-9:
+                    break  # the harness stops every member at the end of the observation
                 if ev["kind"] == "req_done" and ev["api"] == "SyncGroup" and ev["ok"] and ev["srv_error"] == 0:
                     told = dict(step=ev["step"], created=set(), assignment=None, ev=ev)
                     srv = ev["r"]["done"]["srv"]
